@@ -172,6 +172,10 @@ def c01(res):
         return [gg.base_cfg(s, t, light=True, watchdog_ms=60000) for s in ("bfs", "dfs", "ondemand") for t in ((1, 2) if q else (1, 2, 4))]
     fam_market.checker_runs(res, "C01", big, bcfgs, ["edges", "subset", "once", "complete"], wd, "c01big")
     shutil.rmtree(wd, ignore_errors=True)
+    # design level: the faithful algorithm spec with all worker interleavings; drift of the real code from it
+    small = gg.f1_corpus(rng, 20) + [gg.random_graph(rng, "ck-%d" % i, 3, 4, nprops=rng.randint(1, 2)) for i in range(15 if q else 60)] \
+        + [gg.random_forest(rng, "ckf-%d" % i, 3, 5) for i in range(6 if q else 20)]
+    checker_design(res, small, q)
     res.assumptions += ["initial states of a model are distinct (the property's own proviso)",
                         "the recording visitor's mutex orders visits; only set/multiset facts are judged"]
 
@@ -417,4 +421,42 @@ def c19(res):
                 "from fingerprints); Path::from_actions / encode / into_* on all action lists up to depth 3 incl. disabled and "
                 "ignored actions; spawn_on_demand driven by request sequences (each pending requested state is evaluated, "
                 "nothing else is, run_to_completion finishes like BFS)")
+    shutil.rmtree(wd, ignore_errors=True)
+
+
+def checker_design(res, graphs_small, q):
+    """Checker.tla: all interleavings of the faithful search algorithm on small graphs (design level), the as-found variant as a
+    failing mutant, and SPEC-DRIFT detection: a single-threaded real run must reproduce the spec's unique behaviour."""
+    wd = workdir("checker-%s-%s" % (res.pid, res.tier))
+    gp = os.path.join(wd, "g.ndjson")
+    write_ndjson(gp, graphs_small)
+    for cfg in (["Checker_bfs_2w", "Checker_dfs_2w"] if q else ["Checker_bfs_1w", "Checker_dfs_1w", "Checker_bfs_2w", "Checker_dfs_2w"]):
+        r = run_tlc("Checker.tla", "cfg/%s.cfg" % cfg, env=dict(GRAPHS=gp), workers=10, timeout=3000, heap="10g", name=cfg)
+        res.add_tlc(r, cfg)
+        if not r["ok"]:
+            raise ToolError("%s: %s violated on the algorithm SPEC\n%s" % (cfg, r["violated"], r["out"][-3000:]))
+    r = run_tlc("Checker.tla", "cfg/Checker_bfs_1w_asis.cfg", env=dict(GRAPHS=gp), workers=4, timeout=1200, name="checker-asis")
+    if r["violated"] != "WitnessAlways":
+        res.notes.append("self-check: as-found Checker variant did not violate WitnessAlways on this corpus (%s)" % r["violated"])
+    # drift: predicted single-threaded behaviour vs the real run
+    preds = []
+    for st in ("bfs", "dfs"):
+        r = run_tlc("Checker.tla", "cfg/Checker_%s_predict.cfg" % st, env=dict(GRAPHS=gp), workers=1, timeout=1200, name="predict-" + st)
+        res.add_tlc(r, "Checker_%s_predict" % st)
+        for line in r["out"].splitlines():
+            if line.startswith('<<"RUN", "') and line.endswith('">>'):
+                preds.append(json.loads(line[len('<<"RUN", "'):-3].replace('\\"', '"').replace("\\\\", "\\")))
+    items = [dict(g=g, gi=i + 1, cfgs=[gg.base_cfg("bfs", 1), gg.base_cfg("dfs", 1)]) for i, g in enumerate(graphs_small)]
+    runs = execute(wd, items, par=4)
+    pp, rp, op = os.path.join(wd, "pred.ndjson"), os.path.join(wd, "runs.ndjson"), os.path.join(wd, "drift.json")
+    write_ndjson(pp, preds)
+    write_ndjson(rp, runs)
+    r = run_tlc("JudgeDrift.tla", "cfg/empty.cfg", env=dict(PRED=pp, RUNS=rp, OUT=op), timeout=1200, name="jdrift")
+    if r["ok"]:
+        o = json.load(open(op))
+        if o["drift"]:
+            log("SPEC-DRIFT: %d of %d single-threaded runs differ from what Checker.tla predicts step by step (visit order / kept witness / "
+                "counters); property-level judges decide whether that is a violation" % (len(o["drift"]), o["n"]))
+        res.notes.append("Checker.tla predicted %d single-threaded behaviours; %d real runs compared, %d drift" % (o["compared"], o["n"], len(o["drift"])))
+        res.extra["spec_drift_runs"] = len(o["drift"])
     shutil.rmtree(wd, ignore_errors=True)
